@@ -421,7 +421,7 @@ def run(ctx):
         pr = core.ParallelReplay(ctx, worker, batch_size=5000, initializer=_init_maps,
                                  initargs=(ctx.seed,))
         res = core.run_tlc('TokStream', cfg(alpha, maxlen), on_emit=pr.push, raw_ints=True,
-                           timeout=3400, heap='16g')
+                           timeout=7200, heap='16g')
         n = pr.finish()
         ctx.add_tlc(res, 'TokStream %s <= %d' % (alpha, maxlen))
         if n != res.distinct:
